@@ -385,8 +385,7 @@ theorem trS_sound_aux {σ : Type} {rd : σ → V.Rd} {wr : σ → V.Tgt → V.BV
   | dflt body ih =>
     intro sv subj s s' x hok he hr _
     rw [okS] at hok
-    simp only [Bool.and_eq_true] at hok
-    have hokb : okS c body = true := hok.2
+    have hokb : okS c body = true := hok
     have he' : execD c none body s = some s' := by simpa [execD] using he
     simp only [trS, V.exec]
     exact ih none none s s' x hokb he' hr (Or.inl ⟨rfl, rfl⟩)
